@@ -107,3 +107,32 @@ def all_times(cfg, date):
     if cfg['weekly'] is not None:
         out.extend(t for t, _ in cfg['weekly'][date[3]])
     return out
+
+
+def selftest():
+    """the reference on the schedules the repository's own tests and samples bless
+    (tests/test_local/test_local_schedule_2.py: hourly probes of one day;
+    samples/LocalScheduleObject1.py: schedules 2 and 3).  Returns a list of problems."""
+    bad = []
+    wide = ((0, 1, 1, 1), (254, 12, 31, 2))
+    day = [((8, 0, 0, 0), 8), ((14, 0, 0, 0), None), ((17, 0, 0, 0), 42)]
+    cfg = dict(eff=wide, exceptions=[], weekly=dict((w, day) for w in range(1, 8)), default=0)
+    blessed = [0] * 8 + [8] * 6 + [0] * 3 + [42] * 7
+    for hr, val in enumerate(blessed):
+        if evaluate(cfg, (70, 1, 1, 4), (hr, 0, 1, 0)) != (OK, val, ('weekly', 4) if val else ('default',)):
+            bad.append(("weekly", hr))
+    panic = dict(eff=wide, weekly=None, default='calm', exceptions=[dict(
+        period=('entry', ('date', (100, 1, 1, 6))), priority=1,
+        tvs=[((0, 0, 0, 0), 'panic'), ((0, 10, 0, 0), None)])])
+    if evaluate(panic, (100, 1, 1, 6), (0, 5, 0, 0))[1] != 'panic' \
+            or evaluate(panic, (100, 1, 1, 6), (0, 10, 0, 0))[1] != 'calm' \
+            or evaluate(panic, (100, 1, 2, 7), (0, 5, 0, 0))[1] != 'calm':
+        bad.append("panic")
+    friday = dict(eff=wide, weekly=None, default='work', exceptions=[dict(
+        period=('entry', ('wnd', (255, 255, 5))), priority=1, tvs=[((0, 0, 0, 0), 'friday')])])
+    if evaluate(friday, (124, 3, 1, 5), (12, 0, 0, 0))[1] != 'friday' \
+            or evaluate(friday, (124, 2, 29, 4), (12, 0, 0, 0))[1] != 'work':
+        bad.append("friday")
+    if evaluate(dict(cfg, eff=((124, 3, 1, 255), (255, 255, 255, 255))), (124, 2, 29, 4), (9, 0, 0, 0))[0] != INACTIVE:
+        bad.append("inactive")
+    return bad
